@@ -1,6 +1,6 @@
 import Emboss.Properties.C11
 open Emboss.Fmt
-#print axioms C11_table_resolves
+#print axioms C11_table_ok
 #print axioms C11_total
 #print axioms C11_total_subtree
 #print axioms C11_tokens_preserved
